@@ -35,6 +35,8 @@ import (
 //	stream <adv> gen <count> <n> <seed> <pad> <via> <hold> <turn>;...
 //	      producer: <count> batches of n bytes then finish; turn = t:<via> (a tick)
 //	release                                               client frees every pointer it still holds
+//	release <i>                                           client frees the i-th most recently received pointer it holds
+//	                                                      (out-of-order release: holes in front of live slots)
 //
 //	<adv>  - | g<k> (name+size of segment k) | n<k> (name only) | b<k> (bad size) | x (unattachable name)
 //	<via>  i (inline) | s<k> (through segment k when the server has it attached for this request)
@@ -281,6 +283,8 @@ func c36Describe(b arrow.RecordBatch) c36B {
 type c36Held struct {
 	k   int
 	off uint64
+	ptr arrow.RecordBatch // the pointer batch as received (retained): re-read when the slot is released
+	id  string            // content hash of what it resolved to when received
 }
 
 type c36Client struct {
@@ -293,6 +297,7 @@ type c36Client struct {
 	held     []c36Held
 	broken   string // first transport-level failure
 	sentPtr  []bool // for the last call: was the request / each sent input a pointer batch
+	damaged  []string // held pointers whose slot no longer held the batch when released
 }
 
 func newC36Client(segs []*vgirpc.ShmSegment, useShm bool) *c36Client {
@@ -453,7 +458,8 @@ func (cl *c36Client) classify(b arrow.RecordBatch, hold bool) string {
 		out.Release()
 		if rel {
 			if hold {
-				cl.held = append(cl.held, c36Held{cl.attached, off})
+				b.Retain()
+				cl.held = append(cl.held, c36Held{cl.attached, off, b, id})
 			} else {
 				_ = seg.FreeOffset(off)
 			}
@@ -615,11 +621,49 @@ func (cl *c36Client) stream(method, adv string, params arrow.RecordBatch, via st
 	return items
 }
 
+// drop re-reads a held slot just before giving it back (a zero-copy client reads the bytes as long
+// as it holds the pointer): it must still hold the batch that was received.
+func (cl *c36Client) drop(h c36Held) {
+	out, _, _, err := vgirpc.ResolveShmBatch(h.ptr, cl.segs[h.k])
+	switch {
+	case err != nil:
+		cl.damaged = append(cl.damaged, fmt.Sprintf("slot %d of segment %d: no longer readable: %v", h.off, h.k, err))
+	default:
+		if id := c36ID(out); id != h.id {
+			cl.damaged = append(cl.damaged, fmt.Sprintf("slot %d of segment %d: held batch %s now reads as %s", h.off, h.k, h.id, id))
+		}
+		out.Release()
+	}
+	h.ptr.Release()
+	_ = cl.segs[h.k].FreeOffset(h.off)
+}
+
 func (cl *c36Client) releaseAll() {
 	for _, h := range cl.held {
-		_ = cl.segs[h.k].FreeOffset(h.off)
+		cl.drop(h)
 	}
 	cl.held = nil
+}
+
+// releaseOne releases the i-th most recently received held pointer (and, like the model, forgets
+// every held entry for the same slot).
+func (cl *c36Client) releaseOne(i int) {
+	if i < 0 || i >= len(cl.held) {
+		return
+	}
+	h := cl.held[len(cl.held)-1-i]
+	cl.drop(h)
+	var keep []c36Held
+	for _, x := range cl.held {
+		if x.k == h.k && x.off == h.off {
+			if x.ptr != h.ptr {
+				x.ptr.Release()
+			}
+			continue
+		}
+		keep = append(keep, x)
+	}
+	cl.held = keep
 }
 
 // ------------------------------------------------------------------ exec
@@ -731,7 +775,14 @@ func c36Exec(c *Case) {
 			c.Out(l, "ok")
 		case "release":
 			open()
-			cl.releaseAll()
+			cl.segs = segs
+			if len(f) > 1 {
+				i, _ := strconv.Atoi(f[1])
+				cl.releaseOne(i)
+			} else {
+				cl.releaseAll()
+			}
+			c36SlotOracles(c, l, cl, segs)
 			c.Out(l, report(nil))
 		case "unary":
 			open()
@@ -761,6 +812,7 @@ func c36Exec(c *Case) {
 			pitems := plain.unary(method, "-", params, "i", false)
 			params.Release()
 			c36Oracles(c, l, via, nil, cl.sentPtr, items, pitems, everGood, false)
+			c36SlotOracles(c, l, cl, segs)
 			c.Stat("unary-" + method)
 			c.Out(ml, report(items))
 		case "stream":
@@ -845,6 +897,7 @@ func c36Exec(c *Case) {
 			}
 			params.Release()
 			c36Oracles(c, l, via, vias, cl.sentPtr, items, pitems, everGood, initErr != "-")
+			c36SlotOracles(c, l, cl, segs)
 			c.Stat("stream-" + method)
 			c.Out(ml, report(items))
 		default:
@@ -854,6 +907,7 @@ func c36Exec(c *Case) {
 	if cl != nil {
 		// end of session: the client releases what it still holds; nothing may stay allocated
 		cl.releaseAll()
+		c36SlotOracles(c, "end of session", cl, segs)
 		for i, s := range segs {
 			if t := s.VerifTable(); len(t) != 0 {
 				c.Oracle("slot-leak", fmt.Sprintf("segment %d still has %d allocation(s) after the client released every pointer: %v", i, len(t), t))
@@ -866,6 +920,25 @@ func c36Exec(c *Case) {
 			c.Oracle("plain-session-out-of-frame", fmt.Sprintf("plain connection: %d unread response bytes, server exited=%v, transport=%q", left, exited, plain.broken))
 		}
 	}
+}
+
+// c36SlotOracles: after every step each segment's table is offset-sorted, disjoint and inside the
+// data area, and no pointer the client gave back had lost its batch while it was held.
+func c36SlotOracles(c *Case, l string, cl *c36Client, segs []*vgirpc.ShmSegment) {
+	for i, s := range segs {
+		prev := uint64(vgirpc.ShmHeaderSize)
+		for _, e := range s.VerifTable() {
+			if e[0] < prev || e[1] == 0 || e[0]+e[1] > uint64(s.Size()) {
+				c.Oracle("table-not-wf", fmt.Sprintf("after %q: segment %d table %v is not sorted/disjoint/in bounds", l, i, s.VerifTable()))
+				break
+			}
+			prev = e[0] + e[1]
+		}
+	}
+	for _, d := range cl.damaged {
+		c.Oracle("held-slot-overwritten", fmt.Sprintf("at %q: %s", l, d))
+	}
+	cl.damaged = nil
 }
 
 // c36Oracles states the property on the real outputs of one call: same results as the plain
@@ -945,7 +1018,11 @@ func c36Gen(g *Gen) {
 		sizes := []int{0, 1, 10, 100, 230, 250, 260, 300, 700, 1500, 3000, 6000}
 		for k := 0; k < ncalls; k++ {
 			if r.Chance(7) {
-				lines = append(lines, "release")
+				if r.Bool() {
+					lines = append(lines, fmt.Sprintf("release %d", r.Intn(4)))
+				} else {
+					lines = append(lines, "release")
+				}
 				continue
 			}
 			adv := "-"
@@ -1059,6 +1136,45 @@ func c36Gen(g *Gen) {
 				}
 				lines = append(lines, fmt.Sprintf("stream %s gen %d %d %d %d %s %d %s", adv, count, Pick(r, sizes), seed, pad, via, hold, ts))
 			}
+		}
+		g.Case(lines...)
+	}
+	// out-of-order release: several large results held in one roomy segment, an EARLIER one given
+	// back while later ones are still held (a hole in front of a live slot), then further large
+	// results that first-fit into that hole, then everything read back and released
+	for i, no := 0, g.N(60, 1200); i < no; i++ {
+		lines := []string{fmt.Sprintf("seg 0 %d", Pick(r, []int{20000, 30000, 60000}))}
+		big := func() int { return Pick(r, []int{700, 1000, 1500, 1500, 3000}) }
+		held := 0
+		emit := func(n int) {
+			switch r.Intn(3) {
+			case 0, 1:
+				for k := 0; k < n; k++ {
+					lines = append(lines, fmt.Sprintf("unary g0 blob %d %d %d %s 1", big(), r.Intn(1000), Pick(r, []int{0, 300}), Pick(r, []string{"i", "s0"})))
+				}
+			default:
+				ts := make([]string, n)
+				for k := range ts {
+					ts[k] = "t:i"
+				}
+				lines = append(lines, fmt.Sprintf("stream g0 gen %d %d %d 0 i 1 %s", n, big(), r.Intn(1000), strings.Join(ts, ";")))
+			}
+			held += n
+		}
+		emit(r.Range(3, 4))
+		for rounds := r.Range(1, 3); rounds > 0 && held > 1; rounds-- {
+			// give back an older pointer (index >= 1 counts from the newest), keep the newest
+			lines = append(lines, fmt.Sprintf("release %d", r.Range(1, held-1)))
+			held--
+			if r.Chance(40) && held > 1 {
+				lines = append(lines, fmt.Sprintf("release %d", r.Range(1, held-1)))
+				held--
+			}
+			emit(r.Range(2, 3))
+		}
+		lines = append(lines, "release")
+		if r.Bool() {
+			lines = append(lines, fmt.Sprintf("unary - blob %d %d 0 s0 0", big(), r.Intn(1000)))
 		}
 		g.Case(lines...)
 	}
